@@ -1,6 +1,10 @@
 """C05: operations act only on their target modes"""
 from . import phase_harness as PH
+from . import fock_harness as FH
 
 
 def build(ctx):
     PH.jobs(ctx, "spectators")
+    # Fock: the result of every gate/channel/preparation equals (operator on the targets) (x) identity on the rest,
+    # for an arbitrary operator and an arbitrary state, and a unitary leaves the other modes' reduced state unchanged
+    FH.jobs(ctx)
